@@ -137,6 +137,12 @@ def x12n_document(param, src_file, fd_997, fd_html,
             print((walker.counter._dict))
         if node is None:
             node = orig_node
+            if seg.get_seg_id() == 'ST' and errh.cur_gs_node is not None \
+                    and not errh.cur_gs_node.is_closed():
+                # The ST was not located (its ST01 names another transaction
+                # type): the set was received all the same
+                errh.add_st_loop(seg, src)
+                errh.st_error('1', 'Transaction set %s is not supported in this functional group' % (seg.get_value('ST01')))
             # The segment was not located: its reader errors still belong to it
             errh.handle_errors(src.pop_errors())
         else:
